@@ -93,3 +93,80 @@ Theorem C16_read_error_prefix_loop :
        tl)%list.
 Proof. exact read_error_events_prefix. Qed.
 Print Assumptions C16_read_error_prefix_loop.
+
+(* several inputs: read failures over ANY list of inputs *)
+From Jawk Require Import Base F64 Json Reader JsonParser Ctx Printer Fn Expr Chain ExprParser Go GoProofs IoProofs ChainProofs LocalityProofs FilesProofs ReadErrFilesProofs.
+
+(* a failing read in any input of a list: the run does not succeed, it ends with the I/O error under every policy but panic, and no input after the failing one is opened *)
+Theorem C16_read_error_files :
+  forall (cf : cfg) (a : list (option str * list ev)) (fname : option str) (pre : list byte)
+      (rst : list ev) (rest : list (option str * list ev)) (b : bool) (p : printer) 
+      (sts : list stage) (hdr : list byte),
+    build_pipeline cf = Some (p, sts) ->
+    start_output p (titles expr sts []) (c_rowsep cf) = Some hdr ->
+    (forall (ss : list sstate) (c : ctx), snd (process expr get sts ss c) = Continue) ->
+    let evs := map EB pre ++ EErr :: rst in
+    let ins := a ++ (fname, evs) :: rest in
+    g_result (go cf ins b) <> GOk /\
+    (c_on_error cf <> OnPanic -> g_result (go cf ins b) = GErrIo) /\
+    length (g_pulled (go cf ins b)) <= S (length a).
+Proof. exact go_files_read_error. Qed.
+Print Assumptions C16_read_error_files.
+
+(* the events of the run with the failing read are a prefix of the events of the fault-free run, wherever the failing input stands in the list (unconditional) *)
+Theorem C16_read_error_prefix_files :
+  forall (cf : cfg) (a : list (option str * list ev)) (fname : option str) (pre : list byte)
+      (rst : list ev) (more : list byte) (rest : list (option str * list ev)) 
+      (b : bool),
+    let evs_err := map EB pre ++ EErr :: rst in
+    let evs_ok := map EB (pre ++ more) in
+    exists tl : list oev,
+      g_events (go cf (a ++ (fname, evs_ok) :: rest) b) =
+      g_events (go cf (a ++ (fname, evs_err) :: rest) b) ++ tl.
+Proof. exact go_files_read_error_prefix. Qed.
+Print Assumptions C16_read_error_prefix_files.
+
+(* when the loop over the inputs reports an error it stopped in the input where it occurred: one pulled count per input opened, the last one the failing input *)
+Theorem C16_error_stops_files :
+  forall (cf : cfg) (p : printer) (sts : list stage) (nt : nat) (ins : list (option str * list ev))
+      (ss : list sstate) (idx : N) (ss' : list sstate) (o : list oev) (g : gres) 
+      (pl : list N),
+    read_files cf p sts nt ins ss idx = (ss', o, Some g, pl) ->
+    exists
+      (a : list (option str * list ev)) (fname : option str) (evs : list ev) (rest : 
+                                                                             list 
+                                                                             (option str * list ev)),
+      ins = a ++ (fname, evs) :: rest /\ length pl = S (length a).
+Proof. exact read_files_error_stops_len. Qed.
+Print Assumptions C16_error_stops_files.
+
+(* the only errors the loop over the inputs reports are the I/O error and, under panic, the parse error *)
+Theorem C16_error_kind_files :
+  forall (cf : cfg) (p : printer) (sts : list stage) (nt : nat) (ins : list (option str * list ev))
+      (ss : list sstate) (idx : N) (g : gres),
+    ferr_of (read_files cf p sts nt ins ss idx) = Some g ->
+    g = GErrIo \/ g = GErrJson /\ c_on_error cf = OnPanic.
+Proof. exact read_files_err_kind. Qed.
+Print Assumptions C16_error_kind_files.
+
+(* go succeeds exactly when the loop reported no error; otherwise its result is that error, the events are the header and the rows written so far, and no completion row is emitted *)
+Theorem C16_go_error_result :
+  forall (cf : cfg) (ins : list (option str * list ev)) (b : bool) (p : printer)
+      (sts : list stage) (hdr : list byte),
+    build_pipeline cf = Some (p, sts) ->
+    start_output p (titles expr sts []) (c_rowsep cf) = Some hdr ->
+    let nt := length (titles expr sts []) in
+    let hev := match hdr with
+               | [] => []
+               | _ :: _ => [OOut hdr]
+               end in
+    let x := read_files cf p sts nt ins (map (init_state expr) sts) 0 in
+    (g_result (go cf ins b) = GOk <-> ferr_of x = None) /\
+    (forall g : gres,
+     ferr_of x = Some g ->
+     g_result (go cf ins b) = g /\ g <> GOk /\ g_events (go cf ins b) = hev ++ fev_of x) /\
+    (ferr_of x = None ->
+     g_events (go cf ins b) = hev ++ fev_of x ++ emit cf p nt (complete expr get sts (fst_of x))) /\
+    g_pulled (go cf ins b) = fpl_of x.
+Proof. exact go_error_result. Qed.
+Print Assumptions C16_go_error_result.
